@@ -102,6 +102,14 @@ class F(_Base):
         return numpy.ma.array([0.5, -0.5])
 
 
+class F2(F):
+    """derived from the fuzzy command without repeating anything: a fuzzy command too"""
+
+
+class D2(D):
+    """derived from the non-fuzzy data command"""
+
+
 class S(_Base):
     """typed scalar parameters"""
     inputs = dict(_COMMON, Num=params.NumberParameter(required=False), Str=params.StringParameter(required=False),
@@ -284,10 +292,15 @@ def split_top(s):
     return out
 
 
+# what the source of the test library says about fuzziness of derived commands (the flag is inherited like any class attribute)
+FUZZY_TRUTH = {"F2": True, "D2": False}
+
+
 def enc_decl(cls):
     ins = list(cls.inputs.items())
     out = "-" if cls.output is None else enc_spec(cls.output)
-    parts = [enc_str(cls.name), enc_str(cls.__module__), "1" if getattr(cls, "is_fuzzy", False) else "0",
+    fuzzy = FUZZY_TRUTH.get(cls.name, getattr(cls, "is_fuzzy", False)) if cls.__module__ == TESTLIB else getattr(cls, "is_fuzzy", False)
+    parts = [enc_str(cls.name), enc_str(cls.__module__), "1" if fuzzy else "0",
              "1" if cls.allow_extra_inputs else "0", out, str(len(ins))]
     for name, p in ins:
         parts += [enc_str(name), "1" if p.required else "0", enc_spec(p)]
